@@ -50,6 +50,7 @@ BOOL = _Prim("bool", z3.BoolSort)
 INT = _Prim("int", z3.IntSort)
 REAL = _Prim("real", z3.RealSort)
 STR = _Prim("str", z3.StringSort)
+DATETIME = _Prim("datetime", z3.RealSort)   # seconds since the epoch; always truthy; datetime - datetime = real (timedelta seconds)
 
 
 class Atom(Ty):
